@@ -6,7 +6,7 @@ from checks import common
 
 def specs():
     out = [TaskSpec("raise_event", "contracts.events", "task_c14_dispatch", (), replay_kind="driver.events")]
-    for k in ("text", "number", "light", "blob"):
+    for k in ("text", "number", "light", "blob", "switch"):
         ops = ["assign", "set_value", "read"] + (["write"] if k in ("text", "light") else [])
         for op in ops:
             out.append(TaskSpec("%s/%s" % (k, op), "contracts.events", "task_c14", (k, op), replay_kind="driver.events"))
@@ -27,7 +27,7 @@ def run(tier, seed):
         "Write and Change handlers do not modify the element themselves (stated assumption)",
         "asyncio: create_task only records the task; the body of a coroutine function does not run before the current synchronous segment ends -- that is the statement's 'run afterwards'",
         "Vector.to_set_message / Driver.send_message abstracted at the serialisation point: the element value at that instant is what the update carries; vector enabled",
-        "switch elements are covered by C09 (rule interplay); BLOB 'value actually changed' is object identity in the code and in this oracle (content comparison of equal payloads is not claimed)",
+        "for switch elements the event contract is stated over the value the rule lets the element take (the rule itself is C09); BLOB 'value actually changed' is object identity in the code and in this oracle (content comparison of equal payloads is not claimed)",
         "handler *registration* (attach_event_handlers' dir() scan, the @on decorator) is outside the verified dispatch path",
     ]
     chk.min_obligations = 300
